@@ -14,7 +14,7 @@ by `isSignedPerm` (= all of `B_d`):
   `kroneckerDelta_odd_not_invariant`: the code's own TODO ("should only be a 2-tensor");
 * `activation_scalar_equivariant` (any `f`), `activation_pseudoscalar_equivariant_of_odd`,
   `activation_pseudoscalar_not_equivariant_relu`;
-* `imgEq_act`, `eqB_iff`;
+* `imgEq_act`, `eqB_iff` (the executable exact `__eq__` decides the spec `GImg.Eqv`);
 * `eval_equivariant_with_constants`: leaves that are `g`-invariant constant images may be left
   untransformed.
 -/
@@ -305,6 +305,83 @@ theorem imgEq_act (M : Mat d) (hM : isSignedPerm M = true) (G H : GImg R d) (h :
   · show transport M G.torus = transport M H.torus
     rw [h3]
 
+/-! ### the executable equality decides the spec -/
+
+omit [CommRing R] in
+theorem forallIdx_iff (k : Nat) (f : List (Fin d) → Bool) :
+    forallIdx d k f = true ↔ ∀ n : List (Fin d), n.length = k → f n = true := by
+  induction k generalizing f with
+  | zero =>
+    constructor
+    · intro h n hn
+      have : n = [] := List.length_eq_zero_iff.mp hn
+      subst this; exact h
+    · intro h; exact h [] rfl
+  | succ k ih =>
+    simp only [forallIdx, List.all_eq_true, List.mem_finRange, true_implies, ih]
+    constructor
+    · intro h n hn
+      cases n with
+      | nil => simp at hn
+      | cons a n => exact h a n (by simpa using hn)
+    · intro h a n hn
+      exact h (a :: n) (by simp [hn])
+
+theorem forallBoxL_iff (ms : List Nat) (f : List Int → Bool) :
+    forallBoxL ms f = true ↔
+      ∀ a : List Int, List.Forall₂ (fun (x : Int) (m : Nat) => 0 ≤ x ∧ x < (m : Int)) a ms → f a = true := by
+  induction ms generalizing f with
+  | nil =>
+    constructor
+    · intro h a ha
+      rw [List.forall₂_nil_right_iff] at ha
+      subst ha; exact h
+    · intro h; exact h [] List.Forall₂.nil
+  | cons m ms ih =>
+    simp only [forallBoxL, List.all_eq_true, List.mem_finRange, true_implies, ih]
+    constructor
+    · intro h a ha
+      rw [List.forall₂_cons_right_iff] at ha
+      obtain ⟨x, t, ⟨hx0, hxm⟩, ht, rfl⟩ := ha
+      have := h ⟨x.toNat, by omega⟩ t ht
+      simpa [Int.toNat_of_nonneg hx0] using this
+    · intro h i t ht
+      exact h _ (List.Forall₂.cons ⟨by omega, by have := i.isLt; omega⟩ ht)
+
+omit [CommRing R] in
+theorem dataEqB_iff [DecidableEq R] (A B : Img R d) :
+    dataEqB A B = true ↔
+      ∀ y, InBox A.dims y → ∀ n : List (Fin d), n.length = A.k → A.val y n = B.val y n := by
+  simp only [dataEqB, forallBoxL_iff, forallIdx_iff, decide_eq_true_eq]
+  constructor
+  · intro h y hy n hn
+    have hpix : (fun i : Fin d => ((List.finRange d).map y).getD i.val 0) = y := by
+      funext i
+      simp [List.getD_eq_getElem?_getD]
+    have := h ((List.finRange d).map y) (by
+      rw [List.forall₂_map_left_iff, List.forall₂_map_right_iff, List.forall₂_same]
+      intro i _; exact hy i) n hn
+    rwa [hpix] at this
+  · intro h a ha n hn
+    refine h _ ?_ n hn
+    rw [List.forall₂_iff_get] at ha
+    obtain ⟨hl, hg⟩ := ha
+    simp only [List.length_map, List.length_finRange] at hl
+    intro i
+    have := hg i.val (by omega) (by simp)
+    simp only [List.get_eq_getElem, List.getElem_map, List.getElem_finRange] at this
+    have hgd : a.getD i.val 0 = a[i.val]'(by omega) := by
+      simp [List.getD_eq_getElem?_getD, List.getElem?_eq_getElem (show i.val < a.length by omega)]
+    show 0 ≤ a.getD i.val 0 ∧ a.getD i.val 0 < (A.dims i : Int)
+    rw [hgd]
+    simpa using this
+
+omit [CommRing R] in
+/-- **the executable `__eq__` of the model decides its spec** -/
+theorem eqB_iff [DecidableEq R] (G H : GImg R d) : GImg.eqB G H = true ↔ G.Eqv H := by
+  simp only [GImg.eqB, Bool.and_eq_true, fnEq_iff, beq_iff_eq, dataEqB_iff, GImg.Eqv, Img.Equiv]
+  tauto
+
 /-! ### constants as leaves of expressions -/
 
 /-- environment in which the leaves marked `const` are left as they are and the others are
@@ -396,6 +473,9 @@ example (M : Mat 2) (hM : isSignedPerm M = true) :
     ((kroneckerDeltaG (R := Int) 3 2).act M).torus = (kroneckerDeltaG (R := Int) (d := 2) 3 2).torus :=
   ⟨(kroneckerDeltaG_invariant_even M hM (by decide) 3).1,
    (kroneckerDeltaG_invariant_even M hM (by decide) 3).2.2⟩
+/-- the executable equality on concrete images: equal to itself, different once the parity differs -/
+example : GImg.eqB (GImg.mk' onePS 1 (fun _ => true)) (GImg.mk' onePS 1 (fun _ => true)) = true ∧
+    GImg.eqB (GImg.mk' onePS 1 (fun _ => true)) (GImg.mk' onePS 0 (fun _ => true)) = false := by decide
 example : tensorName 0 1 = "pseudoscalar" ∧ tensorName 1 0 = "vector" ∧
     tensorName 2 0 = "$2_{(+)}-$tensor" ∧ tensorName 3 1 = "$3_{(-)}-$tensor" := by decide
 
